@@ -17,6 +17,7 @@ package main
 // properties are selected.
 
 import (
+	"go/token"
 	"sort"
 	"strings"
 	"unicode"
@@ -305,6 +306,77 @@ func throughHelper(v ssa.Value) (ssa.Value, bool) {
 				ht.ctx[originFn(g)] = x
 			}
 			return ret.Results[0], true
+		}
+	case *ssa.UnOp:
+		// the same read through a local variable: w := helper(…); … w.field …  (go/ssa keeps a
+		// struct variable whose fields are selected in memory: alloc, one store of the call's
+		// result, field address, load)
+		if x.Op != token.MUL {
+			return nil, false
+		}
+		fa, ok := x.X.(*ssa.FieldAddr)
+		if !ok {
+			return nil, false
+		}
+		a, ok := fa.X.(*ssa.Alloc)
+		if !ok || a.Referrers() == nil {
+			return nil, false
+		}
+		var whole ssa.Value
+		for _, ref := range *a.Referrers() {
+			switch y := ref.(type) {
+			case *ssa.Store:
+				if y.Addr != ssa.Value(a) || whole != nil {
+					return nil, false
+				}
+				whole = y.Val
+			case *ssa.FieldAddr:
+				for _, r2 := range *y.Referrers() {
+					if _, isLoad := r2.(*ssa.UnOp); !isLoad {
+						if _, isDbg := r2.(*ssa.DebugRef); !isDbg {
+							return nil, false // a field is written or its address escapes
+						}
+					}
+				}
+			case *ssa.DebugRef:
+			default:
+				return nil, false
+			}
+		}
+		c, ok := whole.(*ssa.Call)
+		if !ok {
+			return nil, false
+		}
+		g := rawStaticCallee(c)
+		if !isHelper(g) {
+			return nil, false
+		}
+		if ret := singleReturn(g); ret != nil && len(ret.Results) == 1 {
+			if fv, isLit := compositeLitField(ret.Results[0], fa.Field); isLit && fv != nil {
+				if !ht.pinned[originFn(g)] {
+					ht.ctx[originFn(g)] = c
+				}
+				return fv, true
+			}
+		}
+	case *ssa.Field:
+		// a field of the struct a helper hands back as one composite literal (several values
+		// bundled into one result): the value stored into that field
+		c, ok := x.X.(*ssa.Call)
+		if !ok {
+			return nil, false
+		}
+		g := rawStaticCallee(c)
+		if !isHelper(g) {
+			return nil, false
+		}
+		if ret := singleReturn(g); ret != nil && len(ret.Results) == 1 {
+			if fv, isLit := compositeLitField(ret.Results[0], x.Field); isLit && fv != nil {
+				if !ht.pinned[originFn(g)] {
+					ht.ctx[originFn(g)] = c
+				}
+				return fv, true
+			}
 		}
 	case *ssa.Extract:
 		c, ok := x.Tuple.(*ssa.Call)
